@@ -37,6 +37,7 @@ import (
 	"github.com/mgtv-tech/redis-GunYu/pkg/log"
 	"github.com/mgtv-tech/redis-GunYu/pkg/redis/checkpoint"
 	usync "github.com/mgtv-tech/redis-GunYu/pkg/sync"
+	"github.com/mgtv-tech/redis-GunYu/pkg/vfc20"
 	"github.com/mgtv-tech/redis-GunYu/pkg/vfdoubles"
 	"github.com/mgtv-tech/redis-GunYu/pkg/vfutil"
 )
@@ -62,6 +63,30 @@ type vf6World struct {
 	id1, id2       string
 	switchOff      int64
 	sb, s1, s2, so uint64
+	// cmd: the histories are real replication streams (fixed-length SET
+	// commands) and the snapshots real RDB files, so that the real
+	// RedisOutput.Send can replay them (schedules with send=real)
+	cmd bool
+}
+
+const vf6CmdLen = 41
+
+func vf6Tag(seed uint64) byte { return 'a' + byte(seed%26) }
+
+// command number i of the history with tag `tag` (41 bytes)
+func vf6Cmd(tag byte, i int64) []byte {
+	return []byte(fmt.Sprintf("*3\r\n$3\r\nSET\r\n$8\r\nk%07d\r\n$8\r\n%c%07d\r\n", i%10000000, tag, i%10000000))
+}
+
+func vf6SnapKey(tag byte, off int64, part string) string {
+	return fmt.Sprintf("snap:%c:%d:%s", tag, off, part)
+}
+
+func (w *vf6World) tagAt(id string, n int64) byte {
+	if (id == w.id1 || id == w.id2) && n < w.switchOff {
+		return vf6Tag(w.sb)
+	}
+	return vf6Tag(w.seedOf(id))
 }
 
 func (w *vf6World) seedOf(id string) uint64 {
@@ -76,6 +101,12 @@ func (w *vf6World) seedOf(id string) uint64 {
 
 // hist(id)[n]: the byte consumed when going from offset n to n+1
 func (w *vf6World) hist(id string, n int64) byte {
+	if w.cmd {
+		if n < 0 {
+			return 0
+		}
+		return vf6Cmd(w.tagAt(id, n), n/vf6CmdLen)[n%vf6CmdLen]
+	}
 	if (id == w.id1 || id == w.id2) && n < w.switchOff {
 		return vf6Prf(w.sb, n)
 	}
@@ -94,6 +125,13 @@ func (w *vf6World) histRange(id string, from, to int64) []byte {
 }
 
 func (w *vf6World) snapBytes(id string, off int64, size int64) []byte {
+	if w.cmd {
+		tag := vf6Tag(w.seedOf(id))
+		return vfc20.BuildRDB([]vfc20.KV{
+			{DB: 0, Key: []byte(vf6SnapKey(tag, off, "a")), Type: 0, Str: []byte("1")},
+			{DB: 0, Key: []byte(vf6SnapKey(tag, off, "b")), Type: 0, Str: []byte("2")},
+		}, vfc20.Opts{Aux: true})
+	}
 	if size <= 0 {
 		return nil
 	}
@@ -317,6 +355,11 @@ type vf6Output struct {
 	// error is returned as a failing target would cause): nothing is stored
 	failSnapshot bool
 	interrupted  bool
+	// fault injection: the n-th call (1-based) of the named bookkeeping method fails
+	failReset    int
+	failSetRunId int
+	nSetRunId    int
+	faulted      bool
 }
 
 func (o *vf6Output) StartPoint(ctx context.Context, ids []string) (StartPoint, error) {
@@ -328,15 +371,24 @@ func (o *vf6Output) StartPoint(ctx context.Context, ids []string) (StartPoint, e
 
 func (o *vf6Output) SetRunId(ctx context.Context, id string) error {
 	o.mu.Lock()
+	defer o.mu.Unlock()
 	o.setRunIds = append(o.setRunIds, id)
-	o.mu.Unlock()
+	o.nSetRunId++
+	if o.failSetRunId == o.nSetRunId {
+		o.faulted = true
+		return fmt.Errorf("injected by the C06 harness: output.SetRunId failed")
+	}
 	return nil
 }
 
 func (o *vf6Output) ResetStartPoint(ctx context.Context, ids []string) error {
 	o.mu.Lock()
+	defer o.mu.Unlock()
 	o.resets++
-	o.mu.Unlock()
+	if o.failReset == o.resets {
+		o.faulted = true
+		return fmt.Errorf("injected by the C06 harness: output.ResetStartPoint failed")
+	}
 	return nil
 }
 
@@ -440,6 +492,10 @@ type vf6Chan struct {
 	rdErr []string
 	aofW  atomic.Bool
 	aofO  atomic.Int64
+	// fault injection
+	failDel bool
+	failSet bool
+	faulted atomic.Bool
 }
 
 func (p *vf6Chan) aofWriterSeen() bool { return p.aofW.Load() }
@@ -461,10 +517,18 @@ func (p *vf6Chan) StartPoint(ids []string) (StartPoint, error) {
 }
 func (p *vf6Chan) SetRunId(id string) error {
 	p.rec(func() { p.sets = append(p.sets, id) })
+	if p.failSet {
+		p.faulted.Store(true)
+		return fmt.Errorf("injected by the C06 harness: channel.SetRunId failed")
+	}
 	return p.inner.SetRunId(id)
 }
 func (p *vf6Chan) DelRunId(id string) error {
 	p.rec(func() { p.dels = append(p.dels, id) })
+	if p.failDel {
+		p.faulted.Store(true)
+		return fmt.Errorf("injected by the C06 harness: channel.DelRunId failed")
+	}
 	return p.inner.DelRunId(id)
 }
 func (p *vf6Chan) IsValidOffset(o Offset) bool {
@@ -518,24 +582,26 @@ func (p *vf6Chan) NewReader(o Offset) (ChannelReader, error) {
 // ---------------------------------------------------------------- case
 
 type vf6Case struct {
-	backend string // "d" | "m"
-	fresh   bool   // disk: reopen the store (process restart) before the round
-	logSize int64
-	src     vf6Source // parameters only
-	sp      StartPoint
-	cRun    string
-	hasRdb  bool
-	rdbLeft int64
-	rdbSize int64
-	extra   string // "1 <resume> <done> <e>" when the real RedisOutput is used
-	tokId   string // history the cached snapshot was taken from (ghost; the cache label may have changed since)
-	hasAof  bool
-	aofL    int64
-	aofR    int64
-	sb      uint64
-	s1      uint64
-	s2      uint64
-	so      uint64
+	backend   string // "d" | "m"
+	fresh     bool   // disk: reopen the store (process restart) before the round
+	logSize   int64
+	src       vf6Source // parameters only
+	sp        StartPoint
+	cRun      string
+	hasRdb    bool
+	rdbLeft   int64
+	rdbSize   int64
+	cmd       bool // real streams / snapshots (send=real schedules)
+	nonContig bool
+	extra     string // "<1|2> <resume> <done> <e>" when the real RedisOutput is used (2: its real Send too)
+	tokId     string // history the cached snapshot was taken from (ghost; the cache label may have changed since)
+	hasAof    bool
+	aofL      int64
+	aofR      int64
+	sb        uint64
+	s1        uint64
+	s2        uint64
+	so        uint64
 }
 
 func vf6Opt(has bool, v int64) string {
@@ -587,8 +653,18 @@ func vf6ParseCase(line string) (*vf6Case, error) {
 	return c, nil
 }
 
+// wf: the hypotheses SourceWF and CacheWF of the theorems hold for this op
+func (c *vf6Case) wf() bool {
+	s := &c.src
+	src := s.id1 != "" && s.id1 != "?" && s.id2 != "" && s.id2 != "?" && s.first >= 1 && s.blen >= 0 &&
+		(!s.backlog || s.master+1 == s.first+s.blen) && s.master >= 0 && s.snapLen > 0
+	ch := (!c.hasAof || (c.aofL >= 0 && c.aofL <= c.aofR)) && (!c.hasRdb || (c.rdbLeft >= 0 && c.rdbSize > 0)) &&
+		(!c.hasAof || !c.hasRdb || c.aofL == c.rdbLeft) && !((c.cRun == "" || c.cRun == "?") && (c.hasRdb || c.hasAof))
+	return src && ch
+}
+
 func (c *vf6Case) world() *vf6World {
-	return &vf6World{id1: c.src.id1, id2: c.src.id2, switchOff: c.src.switchOff, sb: c.sb, s1: c.s1, s2: c.s2, so: c.so}
+	return &vf6World{id1: c.src.id1, id2: c.src.id2, switchOff: c.src.switchOff, sb: c.sb, s1: c.s1, s2: c.s2, so: c.so, cmd: c.cmd}
 }
 
 // ---------------------------------------------------------------- harness
@@ -657,6 +733,7 @@ type vf6H struct {
 	nCase  int
 	inCfg  config.RedisConfig
 	slowMs int64
+	fault  string // fault injected into the bookkeeping calls of the next round ("" = none)
 	// patience (ms) for waits that normally end within a millisecond; halves
 	// after every miss so that a broken build does not stall the run
 	patience atomic.Int64
@@ -726,6 +803,9 @@ func (h *vf6H) round(c *vf6Case, inner Channel, replay map[string]interface{}, r
 	s := h.sink
 	tag := "#T"
 	w := c.world()
+	if c.cmd {
+		c.src.snapLen = int64(len(w.snapBytes(c.src.id1, c.src.master, 0)))
+	}
 	src := c.src // copy of the parameters
 	src.w = w
 	srcp := &src
@@ -748,12 +828,24 @@ func (h *vf6H) round(c *vf6Case, inner Channel, replay map[string]interface{}, r
 	qq := inner.IsValidOffset(Offset{RunId: "?", Offset: c.sp.Offset})
 	ql, qs := inner.GetRdb(c.cRun)
 	rl, rr := inner.GetOffsetRange(c.cRun)
-	qline := fmt.Sprintf("%s q sp=%s:%d valid=%s validq=%s rdb=%d,%d range=%d,%d", tag, vfutil.HexS(q0.RunId), q0.Offset,
-		vf6B(qv), vf6B(qq), ql, qs, rl, rr)
+	qline := fmt.Sprintf("%s q sp=%s:%d valid=%s validq=%s rdb=%d,%d range=%d,%d wf=%s", tag, vfutil.HexS(q0.RunId), q0.Offset,
+		vf6B(qv), vf6B(qq), ql, qs, rl, rr, vf6B(c.wf()))
 
 	// ---- the real input against double, proxy and recording output
 	proxy := &vf6Chan{inner: inner}
 	out := &vf6Output{sp: c.sp, final: final, proxy: proxy, patience: &h.patience}
+	switch h.fault {
+	case "reset1":
+		out.failReset = 1
+	case "reset2":
+		out.failReset = 2
+	case "out_setrunid":
+		out.failSetRunId = 1
+	case "chan_del":
+		proxy.failDel = true
+	case "chan_set":
+		proxy.failSet = true
+	}
 	ri := NewRedisInput(h.inCfg)
 	ri.SetOutput(out)
 	if real != nil {
@@ -763,6 +855,10 @@ func (h *vf6H) round(c *vf6Case, inner Channel, replay map[string]interface{}, r
 	}
 	ri.SetChannel(proxy)
 	out.incr = func() usync.WaitChannel { return ri.StateNotify(SyncStateFullSynced) }
+	logMark := 0
+	if real != nil && real.realSend {
+		logMark = real.tg.LogLen()
+	}
 	t0 := time.Now()
 	runErr := ri.run()
 	if ms := time.Since(t0).Milliseconds(); ms > h.slowMs {
@@ -811,6 +907,14 @@ func (h *vf6H) round(c *vf6Case, inner Channel, replay map[string]interface{}, r
 	rid := vf6Last(proxy.sets, "")
 	mline := fmt.Sprintf("%s meta br=%d psync=%s reply=%s full=%s del=%s rid=%s", tag, br, psy, reply, vf6B(full),
 		vf6B(len(proxy.dels) > 0), vfutil.HexS(rid))
+	if c.wf() {
+		mline += fmt.Sprintf(" resets=%d", out.resets)
+	}
+	for _, got := range out.spIds {
+		if len(got) != 2 || got[0] != src.id1 || got[1] != src.id2 {
+			mline += fmt.Sprintf(" !StartPoint.ids=%v", got)
+		}
+	}
 	if orid := vf6Last(out.setRunIds, ""); orid != rid {
 		mline += " !output.SetRunId=" + vfutil.HexS(orid)
 	}
@@ -840,6 +944,53 @@ func (h *vf6H) round(c *vf6Case, inner Channel, replay map[string]interface{}, r
 	lsp, _ := inner.StartPoint(nil)
 	aline := fmt.Sprintf("%s after runid=%s rdb=%d,%d range=%d,%d latest=%d", tag, vfutil.HexS(arid), al, as, cl, cr, lsp.Offset)
 
+	if h.fault != "" {
+		// a bookkeeping call failed: the run must end without delivering anything
+		// (monitor only; the Lean model has no failing calls)
+		res := &vf6Round{final: final, delivered: "none"}
+		if out.faulted || proxy.faulted.Load() {
+			h.s.Count("fault_" + h.fault)
+			if out.sent {
+				h.s.Violate("delivered-after-failed-bookkeeping", fmt.Sprintf("%s failed, yet the run went on and handed a %s reader (left %d) to the output", h.fault, out.kind, out.left),
+					map[string]interface{}{"case": op, "fault": h.fault, "observed": fmt.Sprintf("psync=%v writers=%v runErr=%v", psyncs, proxy.wr, runErr)})
+			}
+			if runErr == nil {
+				h.s.Violate("failed-bookkeeping-not-reported", fmt.Sprintf("%s failed, the run ended without error", h.fault),
+					map[string]interface{}{"case": op, "fault": h.fault})
+			}
+		} else {
+			h.s.Count("fault_not_reached_" + h.fault)
+		}
+		return res
+	}
+
+	// ---- what the target received (real Send): stream commands and snapshot keys of this round
+	type vf6Applied struct {
+		tag byte
+		i   int64
+	}
+	var applied []vf6Applied
+	snapKeys := map[string]bool{}
+	realSend := real != nil && real.realSend
+	if realSend {
+		for _, le := range real.tg.LogCopy()[logMark:] {
+			if len(le.Args) < 3 {
+				continue
+			}
+			cmd, key := le.Cmd(), string(le.Args[1])
+			switch {
+			case strings.HasPrefix(key, "snap:") && (cmd == "set" || cmd == "restore"):
+				snapKeys[key] = true
+			case cmd == "set" && len(key) == 8 && key[0] == 'k' && len(le.Args[2]) == 8:
+				n, _ := strconv.ParseInt(string(le.Args[2][1:]), 10, 64)
+				applied = append(applied, vf6Applied{le.Args[2][0], n})
+			}
+		}
+		if out.sent && out.kind == "aof" {
+			out.got = make([]byte, len(applied)*vf6CmdLen) // length only; the content is judged on the log
+		}
+	}
+
 	// ---- bytes
 	var bline string
 	res := &vf6Round{final: final, full: full, runId: out.runId, left: out.left, size: out.size, interrupted: out.interrupted}
@@ -851,9 +1002,15 @@ func (h *vf6H) round(c *vf6Case, inner Channel, replay map[string]interface{}, r
 	case out.sent && out.kind == "aof":
 		res.delivered = "stream"
 		bline = fmt.Sprintf("%s bytes kind=stream start=%d n=%d first=%s", tag, out.left, final-out.left, vfutil.Hex(first))
+		if realSend {
+			bline = fmt.Sprintf("%s bytes kind=stream start=%d n=%d", tag, out.left, final-out.left)
+		}
 	case out.sent:
 		res.delivered = "snapshot"
 		bline = fmt.Sprintf("%s bytes kind=snapshot left=%d n=%d first=%s", tag, out.left, out.size, vfutil.Hex(first))
+		if realSend {
+			bline = fmt.Sprintf("%s bytes kind=snapshot left=%d n=%d", tag, out.left, out.size)
+		}
 	default:
 		res.delivered = "none"
 		bline = fmt.Sprintf("%s bytes kind=none", tag)
@@ -862,13 +1019,20 @@ func (h *vf6H) round(c *vf6Case, inner Channel, replay map[string]interface{}, r
 		bline += " !read=" + strings.ReplaceAll(out.readErr, " ", "_")
 	}
 	lines := []string{qline, mline, ioline, aline, bline}
+	if !c.wf() {
+		lines = []string{qline, mline} // outside the hypotheses: query API and decision only
+	}
 	if real != nil {
 		// the position the real output holds after the round, against the model's `step`
 		e := int64(0)
 		if out.sent && out.kind == "aof" {
 			e = out.left + int64(len(out.got))
 		}
-		c.extra = fmt.Sprintf("1 %s %s %d", vf6B(real.ro.cfg.EnableResumeFromBreakPoint), vf6B(out.sent && !out.interrupted), e)
+		mode := "1"
+		if realSend {
+			mode = "2"
+		}
+		c.extra = fmt.Sprintf("%s %s %s %d", mode, vf6B(real.ro.cfg.EnableResumeFromBreakPoint), vf6B(out.sent && !out.interrupted), e)
 		op = c.opLine(tag)
 		sp2, _ := real.ro.StartPoint(context.Background(), ids)
 		lines = append(lines, fmt.Sprintf("%s tgt stored=%s:%d", tag, vfutil.HexS(sp2.RunId), sp2.Offset))
@@ -940,6 +1104,15 @@ func (h *vf6H) round(c *vf6Case, inner Channel, replay map[string]interface{}, r
 	s.Count("backlog_" + blk)
 	s.Distinct(fmt.Sprintf("%s|%s|%s|%s|%s|%s|%d|%s|%s", c.backend, spk, ck, shape, rel, blk, br, vf6B(full), res.delivered))
 
+	if !c.wf() {
+		// outside the hypotheses of the theorems (e.g. a log that does not start at
+		// the snapshot's offset, C08's subject): model and code are compared, the
+		// property is not judged
+		s.Count("outside_theorem_hypotheses")
+		res.after = *c
+		res.after.cRun = arid
+		return res
+	}
 	// ---- monitor (independent of the Lean model)
 	rp := func(extra string) map[string]interface{} {
 		m := map[string]interface{}{"case": op, "observed": strings.Join([]string{mline, ioline, aline, bline}, " ; ")}
@@ -965,7 +1138,28 @@ func (h *vf6H) round(c *vf6Case, inner Channel, replay map[string]interface{}, r
 				rp(fmt.Sprintf("start=%d", c.sp.Offset)))
 		}
 		want := w.histRange(src.id1, c.sp.Offset, final)
-		if !bytes.Equal(out.got, want) {
+		if realSend {
+			// judged on the target's request log: exactly the commands of the current
+			// history from the stored offset on, in order, none missing, none twice
+			ok := int64(len(applied))*vf6CmdLen == final-c.sp.Offset && c.sp.Offset%vf6CmdLen == 0
+			for j, a := range applied {
+				i := c.sp.Offset/vf6CmdLen + int64(j)
+				if a.i != i || a.tag != w.tagAt(src.id1, i*vf6CmdLen) {
+					ok = false
+				}
+			}
+			if !ok {
+				got := []string{}
+				for _, a := range applied {
+					got = append(got, fmt.Sprintf("%c%d", a.tag, a.i))
+					if len(got) >= 12 {
+						break
+					}
+				}
+				s.Violate("target-log-stream", fmt.Sprintf("the target received %d commands %v…, expected commands %d..%d of %s (tag %c)", len(applied), got,
+					c.sp.Offset/vf6CmdLen, final/vf6CmdLen-1, src.id1, w.tagAt(src.id1, c.sp.Offset)), rp(""))
+			}
+		} else if !bytes.Equal(out.got, want) {
 			s.Violate("stream-bytes", fmt.Sprintf("delivered %d bytes differ from hist(id1)[%d,%d) (%d bytes)", len(out.got), c.sp.Offset, final, len(want)),
 				rp("first="+vfutil.Hex(want[:vfutil.Min(len(want), 64)])))
 		}
@@ -974,7 +1168,13 @@ func (h *vf6H) round(c *vf6Case, inner Channel, replay map[string]interface{}, r
 			if c.cRun == src.id1 {
 				// excluded by hypothesis StoredCompat (see Props/C06.lean): the
 				// stored label is the previous id, the cache already the current one
-				s.Count("storedcompat_excluded")
+				if truth != nil {
+					s.Count("stale_label_judged_by_truth") // the ground-truth block below decides
+				} else {
+					// the label alone does not say what the target holds (stale label on the
+					// current history, or really the previous history): not judged here
+					s.Count("stored_label_only_unjudged")
+				}
 			} else {
 				s.Violate("continue-other-history", fmt.Sprintf("stored %s:%d is beyond the switch offset %d of the previous id, yet the stream continued", c.sp.RunId, c.sp.Offset, src.switchOff), rp("snapshot"))
 			}
@@ -1004,7 +1204,18 @@ func (h *vf6H) round(c *vf6Case, inner Channel, replay map[string]interface{}, r
 				s.Violate("cache-reuse-after-clear", "cache was cleared yet a cached snapshot was replayed", rp(""))
 			}
 		}
-		if !bytes.Equal(out.got, want) {
+		if realSend {
+			if !out.interrupted {
+				tok := src.id1
+				if !full {
+					tok = c.tokId
+				}
+				tg := vf6Tag(w.seedOf(tok))
+				if !snapKeys[vf6SnapKey(tg, out.left, "a")] || !snapKeys[vf6SnapKey(tg, out.left, "b")] || len(snapKeys) != 2 || len(applied) != 0 {
+					s.Violate("target-log-snapshot", fmt.Sprintf("the target received snapshot keys %v and %d stream commands, expected the two keys of snapshot %c:%d only", snapKeys, len(applied), tg, out.left), rp(""))
+				}
+			}
+		} else if !bytes.Equal(out.got, want) {
 			s.Violate("snapshot-bytes", fmt.Sprintf("delivered snapshot (%d bytes) is not the complete expected one (%d bytes)", len(out.got), len(want)), rp(""))
 		}
 	default:
@@ -1127,6 +1338,131 @@ type vf6RealOut struct {
 	ro           *RedisOutput
 	rec          *vf6Output
 	failSnapshot bool
+	// realSend: Send is the real RedisOutput.Send (SendRdb / SendAof) replaying
+	// onto the target double; otherwise the bytes are recorded and the position
+	// is stored the way SendRdb / sendAof store it
+	realSend bool
+	tg       *vfdoubles.Target
+	patience *atomic.Int64
+}
+
+// storedOffset reads the position the output currently holds for run id `id`
+func (o *vf6RealOut) storedOffset(id string) int64 {
+	if !o.ro.cfg.EnableResumeFromBreakPoint {
+		o.ro.cpGuard.RLock()
+		defer o.ro.cpGuard.RUnlock()
+		return o.ro.checkpointInMem.Offset
+	}
+	for db := 0; db < 16; db++ {
+		if f := o.tg.HashFields(db, o.ro.cfg.CheckpointName); f != nil {
+			if v, ok := f[id+"_offset"]; ok {
+				n, _ := strconv.ParseInt(v, 10, 64)
+				return n
+			}
+		}
+	}
+	return -1
+}
+
+// sendReal runs the real RedisOutput.Send. A snapshot reader is replayed to the
+// end (or made to fail: every request of the replay is refused); a log reader
+// is replayed until the target has received everything the source produced and
+// the output has stored that position, then cancelled (as a closing run does).
+func (o *vf6RealOut) sendReal(ctx context.Context, reader ChannelReader) error {
+	rec := o.rec
+	rec.mu.Lock()
+	rec.sent = true
+	rec.left, rec.size, rec.runId = reader.Left(), reader.Size(), reader.RunId()
+	rec.kind = "rdb"
+	if reader.IsAof() {
+		rec.kind = "aof"
+	}
+	rec.mu.Unlock()
+	wait := func() time.Duration { return time.Duration(o.patience.Load()) * time.Millisecond }
+	miss := func() {
+		if v := o.patience.Load(); v > 100 {
+			o.patience.Store(v / 2)
+		}
+	}
+	var err error
+	if !reader.IsAof() {
+		if o.failSnapshot {
+			n0 := o.tg.LogLen()
+			for i := 0; i < 400; i++ {
+				o.tg.FailAt[n0+i] = "ERR injected by the C06 harness"
+			}
+			err = o.ro.Send(ctx, reader)
+			for i := 0; i < 400; i++ {
+				delete(o.tg.FailAt, n0+i)
+			}
+			if err == nil {
+				err = fmt.Errorf("injected failure did not stop the snapshot replay")
+				rec.readErr = "snapshot-replay-survived-failures"
+			}
+			rec.interrupted = true
+		} else {
+			err = o.ro.Send(ctx, reader)
+			if err != nil {
+				rec.interrupted = true
+				rec.readErr = "SendRdb:" + strings.ReplaceAll(err.Error(), " ", "_")
+			}
+		}
+	} else {
+		ctx2, cancel := context.WithCancel(ctx)
+		done := make(chan error, 1)
+		go func() { done <- o.ro.Send(ctx2, reader) }()
+		want := rec.final
+		deadline := time.Now().Add(wait())
+		reached := false
+		for time.Now().Before(deadline) {
+			if want <= rec.left || o.storedOffset(reader.RunId()) == want {
+				reached = true
+				break
+			}
+			select {
+			case e := <-done:
+				done <- e
+				deadline = time.Now()
+			default:
+			}
+			time.Sleep(300 * time.Microsecond)
+		}
+		if !reached {
+			miss()
+		}
+		if want <= rec.left {
+			time.Sleep(3 * time.Millisecond) // nothing to replay: let the sender idle a moment
+		}
+		cancel()
+		select {
+		case <-done:
+		case <-time.After(wait()):
+			miss()
+			rec.readErr = "SendAof-did-not-stop"
+		}
+	}
+	// let the input reach its log-writer phase and the writer store everything
+	select {
+	case <-rec.incr():
+	case <-time.After(wait()):
+		miss()
+	}
+	deadline := time.Now().Add(wait())
+	for time.Now().Before(deadline) {
+		if rec.proxy.aofWriterSeen() {
+			in := rec.proxy.inner
+			_, r := in.GetOffsetRange(in.RunId())
+			if r == rec.final || (rec.final <= rec.proxy.aofWriterOff() && r <= rec.proxy.aofWriterOff()) {
+				rec.ingested = true
+				break
+			}
+		}
+		time.Sleep(200 * time.Microsecond)
+	}
+	if !rec.ingested {
+		miss()
+	}
+	return err
 }
 
 func (o *vf6RealOut) StartPoint(ctx context.Context, ids []string) (StartPoint, error) {
@@ -1150,6 +1486,9 @@ func (o *vf6RealOut) ResetStartPoint(ctx context.Context, ids []string) error {
 }
 func (o *vf6RealOut) Close() {}
 func (o *vf6RealOut) Send(ctx context.Context, reader ChannelReader) error {
+	if o.realSend {
+		return o.sendReal(ctx, reader)
+	}
 	if err := o.rec.Send(ctx, reader); err != nil {
 		return err
 	}
@@ -1213,6 +1552,7 @@ func vf6NewBridge() (*vf6Bridge, error) {
 //	  to B (switch offset S); the syncer restarts (newOutput) with the cache
 //	  lost / behind, then connects.
 type vf6Window struct {
+	send     string // "rec": bytes recorded, position stored as SendRdb/sendAof do; "real": the real RedisOutput.Send replays onto the target double
 	kind     string
 	backend  string
 	resume   bool
@@ -1230,12 +1570,12 @@ type vf6Window struct {
 }
 
 func (wd *vf6Window) String() string {
-	return fmt.Sprintf("window kind=%s backend=%s resume=%v failover=%v restart=%v oA=%d x=%d s=%d o=%d k1=%d k2=%d snap=%d seedA=%d seedB=%d",
-		wd.kind, wd.backend, wd.resume, wd.failover, wd.restart, wd.oA, wd.x, wd.s, wd.o, wd.k1, wd.k2, wd.snap, wd.seedA, wd.seedB)
+	return fmt.Sprintf("window send=%s kind=%s backend=%s resume=%v failover=%v restart=%v oA=%d x=%d s=%d o=%d k1=%d k2=%d snap=%d seedA=%d seedB=%d",
+		wd.send, wd.kind, wd.backend, wd.resume, wd.failover, wd.restart, wd.oA, wd.x, wd.s, wd.o, wd.k1, wd.k2, wd.snap, wd.seedA, wd.seedB)
 }
 
 func vf6ParseWindow(l string) (*vf6Window, error) {
-	wd := &vf6Window{}
+	wd := &vf6Window{send: "rec"}
 	f := strings.Fields(l)
 	if len(f) < 2 || f[0] != "window" {
 		return nil, fmt.Errorf("not a window line")
@@ -1247,6 +1587,8 @@ func vf6ParseWindow(l string) (*vf6Window, error) {
 		}
 		i64, _ := strconv.ParseInt(p[1], 10, 64)
 		switch p[0] {
+		case "send":
+			wd.send = p[1]
 		case "kind":
 			wd.kind = p[1]
 		case "backend":
@@ -1397,6 +1739,16 @@ func vf6GenCase(r *vfutil.Rand) *vf6Case {
 		}
 	}
 	c.tokId = c.cRun
+	if c.hasRdb && c.hasAof && r.Chance(1, 10) {
+		// outside CacheWF: the log does not start at the snapshot's offset
+		d := int64(r.Range(1, 60))
+		if r.Bool() && c.rdbLeft >= d {
+			c.rdbLeft -= d
+		} else {
+			c.rdbLeft += d
+		}
+		c.nonContig = true
+	}
 	// stored position
 	switch r.Intn(10) {
 	case 0, 1:
@@ -1428,8 +1780,8 @@ func vf6GenCase(r *vfutil.Rand) *vf6Case {
 			c.sp.Offset = vf6Clamp(vfutil.Pick(r, pts))
 		}
 	}
-	if c.backend == "d" && r.Chance(1, 3) {
-		c.fresh = true
+	if c.backend == "d" && r.Chance(1, 3) && !c.nonContig {
+		c.fresh = true // (a reopened store truncates a gap: C08)
 	}
 	return c
 }
@@ -1507,6 +1859,9 @@ func TestVerifC06(t *testing.T) {
 	}
 	log.InitLog(*config.GetSyncerConfig().Log)
 
+	config.GetSyncerConfig().Output.Replay.BatchTicker = 2 * time.Millisecond
+	config.GetSyncerConfig().Output.Replay.UpdateCheckpointTicker = 3 * time.Millisecond
+	config.GetSyncerConfig().Output.Replay.Stats.DisableLog = true
 	h := &vf6H{t: t, s: s, ln: ln, tmp: tmp, inCfg: *config.GetSyncerConfig().Input.Redis}
 	h.patience.Store(5000)
 
@@ -1591,11 +1946,15 @@ func TestVerifC06(t *testing.T) {
 				if err != nil {
 					t.Fatalf("newOutput: %v", err)
 				}
-				return &vf6RealOut{ro: ro}
+				return &vf6RealOut{ro: ro, realSend: wd.send == "real", tg: tg, patience: &h.patience}
+			}
+			unit := int64(1)
+			if wd.send == "real" {
+				unit = vf6CmdLen
 			}
 			truth := &vf6Truth{none: true}
 			rpl := map[string]interface{}{"schedule": wd.String(), "round": 0}
-			base := &vf6Case{backend: wd.backend, logSize: 1 << 20, tokId: ""}
+			base := &vf6Case{backend: wd.backend, logSize: 1 << 20, tokId: "", cmd: wd.send == "real"}
 			ch := h.newChannel(base, dir)
 
 			if wd.kind == "cached-interrupted" {
@@ -1616,6 +1975,9 @@ func TestVerifC06(t *testing.T) {
 				c := *base
 				c.src, c.s1, c.sb, c.s2, c.so = srcA, wd.seedA, 1, 2, 3
 				c.cRun, c.tokId, c.hasRdb, c.rdbLeft, c.rdbSize = A, A, true, wd.oA, wd.snap
+				if c.cmd {
+					c.rdbSize = int64(len(c.world().snapBytes(A, wd.oA, 0)))
+				}
 				if wd.k1 > 0 {
 					c.hasAof, c.aofL, c.aofR = true, wd.oA, wd.oA+wd.k1
 				}
@@ -1632,7 +1994,7 @@ func TestVerifC06(t *testing.T) {
 					ch = h.newChannel(base, dir2)
 					n := res.after
 					n.cRun, n.tokId, n.hasRdb, n.hasAof = "", "", false, false
-					n.src.master, n.src.blen, n.src.k = res.final, res.final, 9
+					n.src.master, n.src.blen, n.src.k = res.final, res.final, 9*unit
 					rpl = map[string]interface{}{"schedule": wd.String(), "round": 1}
 					res = h.round(&n, ch, rpl, real, truth)
 					os.RemoveAll(dir2)
@@ -1700,8 +2062,21 @@ func TestVerifC06(t *testing.T) {
 				}
 				res = h.round(next(srcB, wd.failover), ch, rpl, real, truth)
 				if !s.aborted {
-					srcB.master, srcB.blen, srcB.k = res.final, res.final, 7
+					srcB.master, srcB.blen, srcB.k = res.final, res.final, 7*unit
 					res = h.round(next(srcB, wd.failover), ch, rpl, real, truth)
+				}
+			case wd.kind == "failover-continue":
+				// failover inside the shared prefix, same process: CONTINUE is granted, the
+				// cache is relabelled; in in-memory mode the stored position keeps the previous
+				// id while the log carries it beyond the switch offset (the ¬StoredCompat state)
+				srcB.k = wd.k1
+				res = h.round(next(srcB, true), ch, rpl, real, truth)
+				for _, k := range []int64{wd.k2, 7 * unit} {
+					if s.aborted {
+						break
+					}
+					srcB.master, srcB.blen, srcB.k = res.final, res.final, k
+					res = h.round(next(srcB, true), ch, rpl, real, truth)
 				}
 			case wd.kind == "restart-rekey":
 				// the syncer is restarted towards the new master (typology change)
@@ -1720,7 +2095,7 @@ func TestVerifC06(t *testing.T) {
 				real = newOut(srcB)
 				res = h.round(next(srcB, true), ch, rpl, real, truth)
 				if !s.aborted {
-					srcB.master, srcB.blen, srcB.k = res.final, res.final, 7
+					srcB.master, srcB.blen, srcB.k = res.final, res.final, 7*unit
 					res = h.round(next(srcB, true), ch, rpl, real, truth)
 				}
 			}
@@ -1732,6 +2107,7 @@ func TestVerifC06(t *testing.T) {
 			}
 			s.Count("src_" + srcTag)
 			s.Count("window_" + wd.kind + map[bool]string{true: "_resume", false: "_inmem"}[wd.resume])
+			s.Count("window_send_" + wd.send)
 			s.commit(h)
 			return
 		}
@@ -1746,6 +2122,8 @@ func TestVerifC06(t *testing.T) {
 			wd.kind, wd.failover = "restart-rekey", true
 		} else if r.Chance(1, 4) {
 			wd.kind, wd.failover = "cached-interrupted", false
+		} else if r.Chance(1, 4) {
+			wd.kind, wd.failover = "failover-continue", true
 		}
 		wd.oA = int64(r.Range(1, 400))
 		wd.x = wd.oA + int64(r.Range(1, 300))
@@ -1760,6 +2138,11 @@ func TestVerifC06(t *testing.T) {
 		wd.o = lo + int64(r.Intn(int(vf6Clamp(wd.x-lo))+40))
 		wd.k1 = int64(r.Intn(int(vf6Clamp(wd.x-wd.o)) + 60))
 		wd.k2 = int64(r.Intn(80))
+		if wd.kind == "failover-continue" {
+			wd.s = wd.x + int64(r.Intn(40))
+			wd.o = wd.s + int64(r.Intn(60))
+			wd.k1 = 8 + int64(r.Intn(100))
+		}
 		if wd.kind == "cached-interrupted" {
 			// x = stored position, oA = offset of the cached snapshot (mostly beyond x)
 			wd.x = int64(r.Range(0, 300))
@@ -1768,6 +2151,17 @@ func TestVerifC06(t *testing.T) {
 				wd.oA = 0
 			}
 			wd.k1 = int64(r.Intn(60))
+		}
+		wd.send = "rec"
+		if r.Bool() {
+			// real streams and snapshots: every offset is a command boundary
+			wd.send = "real"
+			for _, p := range []*int64{&wd.oA, &wd.x, &wd.s, &wd.o, &wd.k1, &wd.k2} {
+				*p = (*p / 8) * vf6CmdLen
+			}
+			if wd.kind != "cached-interrupted" && wd.x <= wd.oA {
+				wd.x = wd.oA + vf6CmdLen
+			}
 		}
 		return wd
 	}
@@ -1814,8 +2208,15 @@ func TestVerifC06(t *testing.T) {
 			continue
 		}
 		c := vf6GenCase(r)
+		if i%16 == 3 {
+			// fault injection: one bookkeeping call of the round fails
+			h.fault = vfutil.Pick(r, []string{"reset1", "reset2", "reset1", "out_setrunid", "chan_del", "chan_set"})
+			runCase(c, "fault", 1)
+			h.fault = ""
+			continue
+		}
 		rounds := 1
-		if r.Chance(1, 3) {
+		if r.Chance(1, 3) && !c.nonContig {
 			rounds = 2 + r.Intn(2)
 		}
 		runCase(c, "generated", rounds)
